@@ -15,6 +15,20 @@ TypedSeqs(w, ty) == {s \in SeqsOfLen(Range0(Len(w)), Len(ty)) : Thru(s, w) = ty}
 TypedDiagrams(N, E, A, NL, EL, ta, tb) ==
   UNION {UNION {{OH(w, e, s, t) : e \in SeqsUpTo(EdgesOver(n, A, EL), E), s \in TypedSeqs(w, ta), t \in TypedSeqs(w, tb)}
                 : w \in SeqsOfLen(NL, n)} : n \in 0 .. N}
+\* permutations of 0..n-1 as 0-based tables
+Perms0(n) == {p \in [1 .. n -> Range0(n)] : RangeOf(p) = Range0(n)}
+\* monogamous circuit over the signature of Eval.tla with the given operation labels and ni inputs:
+\* node ids are given to producers in order (inputs, then the target positions of each operation);
+\* the permutation p assigns a node to every consumer slot (source positions in order, then the outputs)
+Circuit(labels, ni, p) ==
+  LET coar == [k \in 1 .. Len(labels) |-> Coarity(labels[k])]
+      ar == [k \in 1 .. Len(labels) |-> Arity(labels[k])]
+      toff == PrefixSums(coar)  soff == PrefixSums(ar)
+      n == ni + SumSeq(coar)
+      nout == n - SumSeq(ar)
+  IN OH([i \in 1 .. n |-> 0],
+        [k \in 1 .. Len(labels) |-> Edge(labels[k], [j \in 1 .. ar[k] |-> p[soff[k] + j]], [j \in 1 .. coar[k] |-> ni + toff[k] + j - 1])],
+        Arange(0, ni), [j \in 1 .. nout |-> p[SumSeq(ar) + j]])
 \* hypergraphs without interfaces
 HypergraphsN(n, E, A, NL, EL) == {OH(w, e, <<>>, <<>>) : w \in SeqsOfLen(NL, n), e \in SeqsUpTo(EdgesOver(n, A, EL), E)}
 Hypergraphs(N, E, A, NL, EL) == UNION {HypergraphsN(n, E, A, NL, EL) : n \in 0 .. N}
